@@ -12,6 +12,9 @@ T2 (correspondence; all comparisons are evaluated by vm_compute inside coqc on t
   e2e      : mloda.run_all with two generated root groups + a consumer + a Link on each of the three frameworks;
              the table the consumer receives is checked like an engine-level observation and must equal the direct
              engine call on the same inputs
+  pipe     : harness/c12_pipe.py - pipelines with 0 / 1 / n-row right tables that KEEP their schema (pandas / pyarrow), left tables
+             with repeated rows: column set AND rows of the table the consumer receives = smerge_data srel_join
+             (Model/JoinCallEmpty.v: JoinStep._merge_data's unconditional engine call, tables with schemas) = direct engine call
 Inputs: pairs of tables with 0-3 rows, key alphabet {1, 2, None} (or {"x","y",None}), value alphabet {7, 8, None},
   1-2 key columns with equal / different / partly different names, overlapping non-key names, six join types.
   thorough: exhaustive for <=2 rows x <=2 rows with one key column (equal and different names, disjoint and identical
@@ -702,7 +705,10 @@ def run(rep: vlib.Reporter, tier: str, seed: int) -> None:
         "key set, coalesces in full outer joins); nothing is proved about pandas/pyarrow, they are only compared with rel_join by T2",
         "harness normalisation: None/NaN/pd.NA/absent column -> null, integral floats -> ints (pandas widens int columns with missing values), "
         "rows sorted; pandas inputs have int64 columns (float64 with NaN when a value is missing) and default-string-dtype key columns, pyarrow inputs int64 / string columns",
-        "iteration order of Python sets is a parameter of the model (ord); the bag comparison does not depend on it (theorem quantifies over ord)"]
+        "iteration order of Python sets is a parameter of the model (ord); the bag comparison does not depend on it (theorem quantifies over ord)",
+        "Model/JoinCallEmpty.v: smerge_data (JoinStep._merge_data calls the engine unconditionally) and srel_join (result columns = left columns "
+        "+ new right columns, every row padded) are hand-written; tied by the family `pipe` (column set and rows of the table a consumer receives "
+        "through run_all, on pandas / pyarrow, right tables with 0 / 1 / n rows); a 0-row PythonDict table has no schema and is kept out of that family"]
     found = False
     stats: Dict[str, Any] = {}
     first: Dict[str, dict] = {}
@@ -766,6 +772,10 @@ def run(rep: vlib.Reporter, tier: str, seed: int) -> None:
         if is_nontrivial(c):
             rep.nontrivial(("e2e", c["e2e"]["engine"], c["jt"], c["lk"], c["rk"], c["L"], c["R"]))
 
+    # ---- pipeline family: empty boundary, schemas (harness/c12_pipe.py) ----
+    from harness import c12_pipe
+    found |= c12_pipe.run_family(rep, random.Random(seed * 7919 + 1212), big, stats)
+
     # ---- known findings (only inside their narrowly defined domains; see classify) ----
     for k, w in sorted(first.items()):
         rep.finding(k, f"{k}: {w['engine']} deviates from rel_join", {"kind": w["kind"], "engine": w["engine"], "code": w["code"], "case": w["case"]})
@@ -799,6 +809,9 @@ def replay(path: str) -> int:
     if r.get("kind") == "dispatch":
         print("now:", dispatch_cases())
         return 0
+    if r.get("kind") == "pipe":
+        from harness import c12_pipe
+        return c12_pipe.replay_case(r)
     c = r["case"]
     recorded = c.get("obs")
     c = {k: c[k] for k in ("jt", "cfg", "layout", "ktype", "lk", "rk", "lcols", "rcols", "L", "R")}
